@@ -369,8 +369,8 @@ def replay_full(exe, ops):
         res['first'].append(f'driver rc={rc} lines={len(dout)}/{len(ops)}: {err[-300:]}')
         return res
     for i, (o, h, dl) in enumerate(zip(ops, hout, dout)):
-        hs = multiloop.canon_early(S.strip_events(h))
-        dl = multiloop.canon_early(dl.strip())
+        hs = S.strip_events(h)
+        dl = dl.strip()
         hs, dl = mask_garbage_q(hs, dl)
         if hs != dl and S.Op.parse(o).nat('nanat') and multiloop.nonpure(S.parse_out(h)['events']):
             res['skipped'] += 1
